@@ -1364,7 +1364,7 @@ func (r *Restore) Peering(p *pbpeering.Peering) error {
 		return fmt.Errorf("failed restoring peering: %w", err)
 	}
 
-	if err := updatePeeringTableIndexes(r.tx, p.ModifyIndex, p.PartitionOrDefault()); err != nil {
+	if err := restorePeeringTableIndexes(r.tx, p.ModifyIndex, p.PartitionOrDefault()); err != nil {
 		return err
 	}
 
@@ -1375,7 +1375,7 @@ func (r *Restore) PeeringTrustBundle(ptb *pbpeering.PeeringTrustBundle) error {
 	if err := r.tx.Insert(tablePeeringTrustBundles, ptb); err != nil {
 		return fmt.Errorf("failed restoring peering trust bundle: %w", err)
 	}
-	if err := updatePeeringTrustBundlesTableIndexes(r.tx, ptb.ModifyIndex, ptb.PartitionOrDefault()); err != nil {
+	if err := restorePeeringTrustBundlesTableIndexes(r.tx, ptb.ModifyIndex, ptb.PartitionOrDefault()); err != nil {
 		return err
 	}
 	return nil
